@@ -194,7 +194,7 @@ LIBC_KNOWN = {'malloc', 'free', 'realloc', 'calloc', 'memcpy', 'memmove', 'memse
 
 
 class Tr:
-    def __init__(self, text, ubchk=True, acc_prefixes=(), co=False, yield_prims=(), nthr_macro='VF_NTHR'):
+    def __init__(self, text, ubchk=False, acc_prefixes=(), co=False, yield_prims=(), nthr_macro='VF_NTHR'):
         self.types = {}
         self.globals = {}
         self.decls = {}
@@ -891,12 +891,61 @@ class Tr:
         phis = {bl: [i for i in il if i[0] == 'phi'] for bl, il in insts.items()}
         decl = []
         code = []
+        # emit blocks in reverse post-order: every non-back edge then goes forward in the text, so loops are entered by
+        # forward jumps and left/continued by the only backward gotos. CBMC resets a loop's unwinding counter when the
+        # head is reached from outside; with LLVM's own block order (a latch placed before the loop body) counters
+        # accumulate over re-entries and unwinding assertions fail spuriously.
+        succ = {}
         for bl, _ in blocks:
+            t = insts[bl][-1] if insts[bl] else ('unreachable',)
+            if t[0] == 'br':
+                succ[bl] = [t[1]]
+            elif t[0] == 'condbr':
+                succ[bl] = [t[2], t[3]]
+            elif t[0] == 'switch':
+                succ[bl] = [t[3]] + [lb for _, lb in t[4]]
+            else:
+                succ[bl] = []
+        seen = set()
+        post = []
+        stack = [(blocks[0][0], iter(succ[blocks[0][0]]))] if blocks else []
+        if blocks:
+            seen.add(blocks[0][0])
+        while stack:
+            node, it = stack[-1]
+            adv = False
+            for nx in it:
+                if nx not in seen:
+                    seen.add(nx)
+                    stack.append((nx, iter(succ.get(nx, []))))
+                    adv = True
+                    break
+            if not adv:
+                post.append(node)
+                stack.pop()
+        rpo = list(reversed(post))
+        bmap = dict(blocks)
+        blocks = [(b, bmap[b]) for b in rpo] + [(b, l) for b, l in blocks if b not in seen]
+        self.border = {bl: i for i, (bl, _) in enumerate(blocks)}
+        self.tramps = {}
+        for bl, _ in blocks:
+            code.append('/*HEAD:%s*/' % bl)
             code.append('%s: ;' % self.blabel(bl))
             for ins in insts[bl]:
                 if ins[0] == 'phi':
                     continue
                 code += self.emit_inst(ins, bl, phis)
+        # trampolines (phi copies of backward edges) are placed right before the loop head, so that the backward goto
+        # itself can be a bare conditional goto: CBMC resets a loop's unwinding counter only when that goto is not taken
+        out = []
+        for ln in code:
+            m = re.fullmatch(r'/\*HEAD:(.*)\*/', ln)
+            if m:
+                for (tn, copies) in self.tramps.get(m.group(1), []):
+                    out.append('%s: ; %s goto %s;' % (tn, ' '.join(copies), self.blabel(m.group(1))))
+                continue
+            out.append(ln)
+        code = out
         for n, t in self.vals.items():
             if any(n == a for _, a in ps):
                 continue
@@ -1179,6 +1228,19 @@ class Tr:
 
     def goto(self, frm, to, phis):
         return ' '.join(self.phi_copies(frm, to, phis) + ['goto %s;' % self.blabel(to)])
+
+    def backward(self, frm, to):
+        return self.border[to] <= self.border[frm]
+
+    def tramp(self, frm, to, phis):
+        """label of a trampoline (phi copies of edge frm->to, placed before the head `to`)"""
+        copies = self.phi_copies(frm, to, phis)
+        if not copies:
+            return self.blabel(to)
+        lst = self.tramps.setdefault(to, [])
+        tn = 'TR_%s_%d' % (self.cid(to), len(lst))
+        lst.append((tn, copies))
+        return tn
 
     def sct(self, w):
         if w in (8, 16, 32, 64):
@@ -1519,10 +1581,10 @@ if __name__ == '__main__':
     ap = argparse.ArgumentParser()
     ap.add_argument('inp')
     ap.add_argument('out')
-    ap.add_argument('--no-ubchk', action='store_true')
+    ap.add_argument('--ubchk', action='store_true')
     ap.add_argument('--acc', action='append', default=[])
     ap.add_argument('--co', action='store_true')
     ap.add_argument('--yield-prim', action='append', default=[])
     a = ap.parse_args()
-    src = translate(open(a.inp).read(), ubchk=not a.no_ubchk, acc_prefixes=a.acc, co=a.co, yield_prims=a.yield_prim)
+    src = translate(open(a.inp).read(), ubchk=a.ubchk, acc_prefixes=a.acc, co=a.co, yield_prims=a.yield_prim)
     open(a.out, 'w').write(src)
